@@ -45,6 +45,30 @@ lerp_int!(lerp_i8_f32, lerp_precise_i8_f32, c12_contract_lerp_i8_f32, c12_contra
 lerp_int!(lerp_u8_f64, lerp_precise_u8_f64, c12_contract_lerp_u8_f64, c12_contract_lerp_precise_u8_f64, c12_lerp_endpoints_u8_f64, u8, f64);
 lerp_int!(lerp_i8_f64, lerp_precise_i8_f64, c12_contract_lerp_i8_f64, c12_contract_lerp_precise_i8_f64, c12_lerp_endpoints_i8_f64, i8, f64);
 
+/// ties: at factor 1/2 the real-valued result is a half-integer whenever from + to is odd -- it must round away from zero
+/// (every pair of 8-bit end points; both formulas, by value and by reference); cheap because the factor is a constant
+macro_rules! lerp_ties {
+    ($h:ident, $T:ty, $F:ty) => {
+        #[kani::proof]
+        fn $h() {
+            let from: $T = kani::any(); let to: $T = kani::any();
+            let e = expect_i64(from as i64, to as i64, 32);
+            assert!(<$T as Lerp<$F>>::lerp_unclamped(from, to, 0.5) as i64 == e);
+            assert!(<$T as Lerp<$F>>::lerp_unclamped_precise(from, to, 0.5) as i64 == e);
+            assert!(<&$T as Lerp<$F>>::lerp_unclamped(&from, &to, 0.5) as i64 == e);
+            assert!(<&$T as Lerp<$F>>::lerp_unclamped_precise(&from, &to, 0.5) as i64 == e);
+            assert!(<$T as Lerp<$F>>::lerp(from, to, 0.5) as i64 == e);
+            assert!(<$T as Lerp<$F>>::lerp_precise(from, to, 0.5) as i64 == e);
+        }
+    };
+}
+lerp_ties!(c12_lerp_ties_u8_f32, u8, f32);
+lerp_ties!(c12_lerp_ties_i8_f32, i8, f32);
+lerp_ties!(c12_lerp_ties_u8_f64, u8, f64);
+lerp_ties!(c12_lerp_ties_i8_f64, i8, f64);
+lerp_ties!(c12_lerp_ties_i16_f64, i16, f64);
+lerp_ties!(c12_lerp_ties_u16_f32, u16, f32);
+
 /// range limits of wider types (exactly representable end points): no panic, end points hit
 #[kani::proof]
 fn c12_lerp_range_limits_i32_f64() {
